@@ -197,6 +197,25 @@ def check_proofs(prop):
     return theorems, discharged, (o + e).strip(), failures
 
 
+def run_coqchk(prop):
+    """Thorough tier: re-check the compiled property module and everything it depends on with
+    the independent checker; cached by the hash of the .vo files."""
+    import glob
+    h = hashlib.sha256()
+    for f in sorted(glob.glob(os.path.join(COQ, "**", "*.vo"), recursive=True)):
+        h.update(f.encode())
+        h.update(open(f, "rb").read())
+    key = h.hexdigest()[:16]
+    cache = os.path.join(BUILD, "coqchk-%s-%s.txt" % (prop, key))
+    if os.path.exists(cache):
+        return open(cache).read(), True
+    rc, o, e = sh(["coqchk", "-silent", "-o", "-Q", COQ, "KV", "KV.Props." + prop], cwd=COQ, timeout=5400)
+    text = "rc=%d\n%s%s" % (rc, o[-3000:], e[-1500:])
+    if rc == 0:
+        open(cache, "w").write(text)
+    return text, rc == 0
+
+
 def split_cases(path, nshards, outdir, tag):
     """Split a case file into shards of whole cases."""
     shards = [[] for _ in range(nshards)]
@@ -459,6 +478,11 @@ def main():
         # make run; a failure there that touches this property shows up as a Props failure
         for f in pfail:
             broken.append("proof obligation: " + f)
+        if tier == "thorough" and not replay and os.environ.get("VERIF_NO_COQCHK") is None:
+            chk, okc = run_coqchk(prop)
+            ev_cov["coqchk"] = chk[-2500:]
+            if not okc:
+                broken.append("coqchk failed for KV.Props.%s: %s" % (prop, chk[-800:]))
         # ---- stage 2+3: corpus, generated cases
         casefiles = []
         if replay:
